@@ -74,13 +74,19 @@ Fixpoint conforms (s : sch) (c : cfg) {struct s} : bool :=
   end.
 
 (* ---------- from-scratch specification of the history ---------- *)
-(* the syncs that are actually applied, in order (None = "ConfigMap not found") *)
-Fixpoint eff_syncs (avail : bool) (ops : list op) : list (option cmap) :=
+(* the syncs that are actually applied, in order (None = "ConfigMap not found"): every Create /
+   changed Update syncs its ConfigMap; as long as the cache was never synced, the first
+   IsCfgAvailable() (explicit, or at the start of the reconciliation that follows every event)
+   syncs whatever the informer cache holds at that moment *)
+Fixpoint eff_syncs (avail : bool) (inf : option cmap) (ops : list op) : list (option cmap) :=
   match ops with
   | [] => []
-  | OSync c :: t => Some c :: eff_syncs true t
-  | ONop :: t => eff_syncs avail t
-  | OAvail oc :: t => if avail then eff_syncs avail t else oc :: eff_syncs true t
+  | o :: t =>
+      let inf' := inf_after inf o in
+      (match o with
+       | OSync c => [Some c]
+       | _ => if avail then [] else [inf']
+       end) ++ eff_syncs true inf' t
   end.
 
 Definition sec_in (i : nat) (oc : option cmap) : section_in :=
@@ -107,7 +113,7 @@ Definition spec_effective (m : mode) (ls : labels) (sd : secdef) (s : section_in
 
 Definition spec_observe (m : mode) (sds : list secdef) (nodes : list labels) (ops : list op)
   : list cfg :=
-  let syncs := eff_syncs false ops in
+  let syncs := eff_syncs false None ops in
   flat_map (fun ls =>
     map (fun isd => spec_effective m ls (snd isd) (last_good (fst isd) syncs))
         (combine (seq 0 (length sds)) sds)) nodes.
@@ -149,7 +155,7 @@ Definition clause_of (i : nat) (syncs : list (option cmap)) : Z :=
 
 Definition spec_segs_at (m : mode) (sds : list secdef) (nodes : list labels) (ops : list op)
   : list (Z * list Z) :=
-  let syncs := eff_syncs false ops in
+  let syncs := eff_syncs false None ops in
   flat_map (fun ls =>
     map (fun isd => (clause_of (fst isd) syncs,
                      enc (spec_effective m ls (snd isd) (last_good (fst isd) syncs))))
@@ -209,10 +215,8 @@ Definition clean_cmap (sds : list secdef) (c : cmap) : bool :=
 
 Definition clean_op (sds : list secdef) (o : op) : bool :=
   match o with
-  | OSync c => clean_cmap sds c
-  | ONop => true
-  | OAvail (Some c) => clean_cmap sds c
-  | OAvail None => true
+  | OSync c | OSame c | OAvail (Some c) => clean_cmap sds c
+  | _ => true
   end.
 
 Definition clean_input (i : input) : bool := forallb (clean_op (in_secs i)) (in_ops i).
@@ -239,10 +243,8 @@ Definition wf_cmap (ss : list sch) (c : cmap) : bool :=
 
 Definition wf_op (ss : list sch) (o : op) : bool :=
   match o with
-  | OSync c => wf_cmap ss c
-  | ONop => true
-  | OAvail (Some c) => wf_cmap ss c
-  | OAvail None => true
+  | OSync c | OSame c | OAvail (Some c) => wf_cmap ss c
+  | _ => true
   end.
 
 Definition wf_input (ss : list sch) (i : input) : bool :=
